@@ -199,6 +199,25 @@ def collect_as_str(F, it):
     return out
 
 
+_INL = {}
+_INL_WANT = {}
+
+
+def _inlined_for_discharge(F, f):
+    k = (id(F), f["path"], f.get("stage"))
+    if k not in _INL:
+        crate = f["crate"]
+        if crate not in _INL_WANT:
+            def want(t, callee, crate=crate):
+                return callee["crate"] == crate and not callee.get("impl_trait") and not callee.get("trait_default") and len(callee["blocks"]) <= 80
+            _INL_WANT[crate] = want
+        try:
+            _INL[k] = mir.inline_calls(F, f, want=_INL_WANT[crate], depth=1)
+        except Exception:
+            _INL[k] = None
+    return _INL[k]
+
+
 def panic_obligations(F, res, roots, prop_rows, cg=None, grammar=None, crates=None, rule="PANIC", skip_fn=None, extra=()):
     """shared by C12/C13/C14/C16/C11: inventory + discharge; returns sites"""
     cg = cg or CallGraph(F)
@@ -249,6 +268,14 @@ def panic_obligations(F, res, roots, prop_rows, cg=None, grammar=None, crates=No
                 by = "D-TEXT: " + by
         if by is None:
             by = discharge.try_all(f, du, cfg, s)
+        if by is None and s.kind in ("K2", "K3", "K4"):
+            # a guard that was moved into a helper of the crate (`expect_arg_count(..)?` before `args[0]`): retry on the body
+            # with the crate's helpers inlined (the site keeps its block number; Ok / Err returns of helpers are kept apart)
+            fi = _inlined_for_discharge(F, f)
+            if fi is not None and fi.get("inlined"):
+                by = discharge.try_all(fi, mir.DefUse(fi), mir.CFG(fi), s)
+                if by:
+                    by += " (guard in an inlined helper)"
         if by is None:
             for ex in extra:
                 by = ex(s)
